@@ -143,6 +143,53 @@ Fixpoint grid_defs (ds : list var) (members : list (list var)) : list form :=
   | _, _ => []
   end.
 
+(* strconv.Quote (bf.go:349), byte by byte.  Exact for every byte below 0x80:
+   the double quote and the backslash are escaped with a backslash, the control
+   characters print as \a \b \f \n \r \t \v or \xhh (lower-case hex; also 0x7f),
+   the other printable ASCII characters are kept.  Bytes >= 0x80 are kept as
+   they are: this is what Go does for the UTF-8 encoding of a printable rune
+   (unicode.IsPrint); for invalid UTF-8 and for non-printable runes Go prints
+   \xhh, \uhhhh or \Uhhhhhhhh instead -- names containing such bytes are
+   outside the model (checked against Go on a sample, Properties/C12.v). *)
+Definition hex_digit (n : N) : ascii :=
+  nth (N.to_nat n)
+      ["0"; "1"; "2"; "3"; "4"; "5"; "6"; "7"; "8"; "9"; "a"; "b"; "c"; "d"; "e"; "f"]%char
+      "0"%char.
+
+Definition ch_bs : ascii := "092"%char.   (* backslash *)
+Definition ch_dq : ascii := "034"%char.   (* double quote *)
+
+Definition esc (c : ascii) : string :=
+  let n := N_of_ascii c in
+  if (n =? 34)%N then String ch_bs (String ch_dq EmptyString)
+  else if (n =? 92)%N then String ch_bs (String ch_bs EmptyString)
+  else if (n =? 7)%N then String ch_bs (String "a" EmptyString)
+  else if (n =? 8)%N then String ch_bs (String "b" EmptyString)
+  else if (n =? 12)%N then String ch_bs (String "f" EmptyString)
+  else if (n =? 10)%N then String ch_bs (String "n" EmptyString)
+  else if (n =? 13)%N then String ch_bs (String "r" EmptyString)
+  else if (n =? 9)%N then String ch_bs (String "t" EmptyString)
+  else if (n =? 11)%N then String ch_bs (String "v" EmptyString)
+  else if (n <? 32)%N || (n =? 127)%N then
+    String ch_bs (String "x" (String (hex_digit (n / 16)) (String (hex_digit (n mod 16)) EmptyString)))
+  else String c EmptyString.
+
+Fixpoint qbody (s : string) : string :=
+  match s with
+  | EmptyString => EmptyString
+  | String c r => (esc c ++ qbody r)%string
+  end.
+
+Definition quote (s : string) : string := String ch_dq (qbody s ++ String ch_dq EmptyString)%string.
+
+(* a name given by its bytes (for names with control characters) *)
+Definition string_of_bytes (l : list nat) : string :=
+  fold_right (fun n s => String (ascii_of_nat n) s) EmptyString l.
+
+(* bf.go:347-351  fullName *)
+Definition full_name (vars : list var) : string :=
+  String.concat "-" (map (fun v => quote (vname v)) vars).
+
 (* bf.go:338-378.  The recursion is on lists that get strictly shorter
    (nbLines, nbCols < nbVars when nbVars > 4): fuel = number of variables is
    enough (Proofs/Bf.v); FFalse is the out-of-fuel value. *)
@@ -154,7 +201,7 @@ Fixpoint unique_rec (fuel : nat) (vars : list var) : form :=
   | S k =>
     let nbl := nb_lines n in
     let nbc := nb_cols n in
-    let full := String.concat "-" (map vname vars) in
+    let full := full_name vars in
     let lines := grid_vars "line-" nbl full in
     let cols := grid_vars "col-" nbc full in
     FAnd (grid_defs lines (lines_of vars nbl nbc)
@@ -479,18 +526,22 @@ Definition env_of (c : bfcnf) : model -> (var -> bool) -> var -> bool :=
   env_tbl (v_all (c_vars c)).
 
 (* ------------------------------------------------------------------ *)
-(* bf.go:24-26, 419-431  Solve / cnf.solve.
+(* bf.go:24-26, 419-433  Solve / cnf.solve.
    solver.ParseSlice derives the number of variables from the clauses; it is
-   len(vars.all) because every variable of the table occurs in a clause.
-   The Go result is a map name -> bool filled by ranging over vars.pb (which
-   contains the line/col dummies of Unique, but not the dummy-k variables);
-   here: the list of bindings in insertion order. *)
+   len(vars.all) because every variable of the table occurs in a clause
+   (Proofs/Bf.v, [as_cnf_used]).  The Go result is a map name -> bool filled
+   by ranging over vars.pb and skipping the dummy variables (the line/col
+   variables of Unique; the dummy-k variables are not in vars.pb at all);
+   here: the list of bindings in insertion order.  The names are pairwise
+   distinct (Proofs/Bf.v, [solve_names_nodup]), so the map does not depend
+   on the iteration order. *)
 Definition bf_solve (solve : solver) (f : form) : option (list (string * bool)) :=
   let c := as_cnf f in
   match solve (List.length (v_all (c_vars c))) (cnf_problem (c_clauses c)) with
   | None => None
   | Some m =>
-    Some (map (fun e : var * Z => (vname (fst e), var_val m (snd e))) (v_pb (c_vars c)))
+    Some (map (fun e : var * Z => (vname (fst e), var_val m (snd e)))
+              (filter (fun e : var * Z => negb (vdummy (fst e))) (v_pb (c_vars c))))
   end.
 
 Definition solve_ref (f : form) : option (list (string * bool)) := bf_solve ref_solve f.
@@ -540,7 +591,7 @@ Fixpoint unique_defs (fuel : nat) (vars : list var) : list (var * list var) :=
   | S k =>
     let nbl := nb_lines n in
     let nbc := nb_cols n in
-    let full := String.concat "-" (map vname vars) in
+    let full := full_name vars in
     let lines := grid_vars "line-" nbl full in
     let cols := grid_vars "col-" nbc full in
     combine lines (lines_of vars nbl nbc) ++ combine cols (cols_of vars nbc)
@@ -568,24 +619,40 @@ Fixpoint vars_eqb (a b : list var) : bool :=
   | _, _ => false
   end.
 
-(* The dummies of the Unique groups of a formula are named from the names
-   of the group joined with "-"; two different groups can get the same dummy
-   (Unique("a-b","c",..) and Unique("a","b-c",..)), and a dummy can be a
-   member of another group.  [good_defs]: a dummy is never a member of its
-   own or of an earlier definition, and two definitions of the same dummy
-   have the same members. *)
-Fixpoint good_defs (defs : list (var * list var)) : bool :=
+(* The dummies of a group are named from the quoted names of its variables
+   joined with "-" (bf.go:347-351).  Two groups with the same list of
+   variables share their dummies, with identical definitions: harmless.
+   [functional_defs]: two definitions of the same dummy have the same members.
+   It can only fail when a group of user variables and a nested group of
+   dummies (uniqueRec(lines...), for 21 names and more) have the same names,
+   i.e. when the user names variables "line-<i>-..." / "col-<i>-...":
+   Proofs/Bf.v, [clash_free_ok]. *)
+Fixpoint functional_defs (defs : list (var * list var)) : bool :=
   match defs with
   | [] => true
   | (d, l) :: rest =>
-    vdummy d && negb (mem_var d l)
-    && forallb (fun e : var * list var =>
-                  negb (mem_var (fst e) l)
-                  && (if var_eqb (fst e) d then vars_eqb (snd e) l else true)) rest
-    && good_defs rest
+    forallb (fun e : var * list var =>
+               if var_eqb (fst e) d then vars_eqb (snd e) l else true) rest
+    && functional_defs rest
   end.
 
-Definition clash_free (f : sform) : bool := good_defs (sdefs f).
+Definition clash_free (f : sform) : bool := functional_defs (sdefs f).
+
+(* no name of a group of more than 4 names looks like a line/col dummy *)
+Definition reserved_name (s : string) : bool := prefix "line-" s || prefix "col-" s.
+
+Fixpoint no_reserved (f : sform) : bool :=
+  match f with
+  | SNot g => no_reserved g
+  | SAnd l => forallb no_reserved l
+  | SOr l => forallb no_reserved l
+  | SImplies a b => no_reserved a && no_reserved b
+  | SEq a b => no_reserved a && no_reserved b
+  | SXor a b => no_reserved a && no_reserved b
+  | SUnique names =>
+    (List.length names <=? 4)%nat || forallb (fun n => negb (reserved_name n)) names
+  | _ => true
+  end.
 
 (* Exactly-one groups of more than 4 names occur only positively
    ([pol] = true: the current position is positive).  Both sides of Eq and
@@ -607,17 +674,6 @@ Definition positive_unique (f : sform) : bool := pos_unique true f.
 (* the assignment of the names read off a model of the clauses *)
 Definition names_of (c : bfcnf) (m : model) (dflt : string -> bool) (s : string) : bool :=
   env_of c m (fun v => dflt (vname v)) (pb_var s).
-
-(* no two variables of vars.pb have the same name: the Go result map (keyed
-   by name, bf.go:426-429) then does not depend on the iteration order *)
-Fixpoint nodup_str (l : list string) : bool :=
-  match l with
-  | [] => true
-  | x :: r => negb (existsb (String.eqb x) r) && nodup_str r
-  end.
-
-Definition names_distinct (f : form) : bool :=
-  nodup_str (map (fun e : var * Z => vname (fst e)) (v_pb (c_vars (as_cnf f)))).
 
 (* the assignment of the names read off a model of the exported problem
    through the "c name=index" comments *)
